@@ -40,6 +40,11 @@ RULE = ("synthetic VCF text (1..3 sample columns, 0..2 PEDIGREE tags incl. tags 
         "Generated only with VERIF_C18_BAF_LABELS=1 (open finding proposed_fixes/C18-baf-labels-not-ranges.md): "
         "haar staircases through do_segmentation / segment -v (several segments per arm), nexus-ogt -w/--min-weight, "
         "filtered segment tables handed to do_call. "
+        "The option glue alone (op vcf_cliopts, 200 / 1500 cases): for each of the five commands that call load_het_snps "
+        "(segment, call, scatter, export theta, export nexus-ogt) an argument vector with -i/--sample-id, -n/--normal-id, "
+        "--min-variant-depth (-m where the command has it; incl. the default value spelled out) and -z/--zygosity-freq "
+        "(left out, bare, with a number) given or left out in shuffled order; the command runs as cnvkit.py runs it up to "
+        "its load_het_snps call, whose received arguments (bound to the callee's parameter names) are the observable. "
         "non-trivial = a read with >= 1 record and an existing sample, a BAF with >= 1 heterozygous row "
         "inside some range; distinct by hash of the case")
 EXHAUSTIVE = {"quick": False, "thorough": False}
@@ -65,6 +70,13 @@ TRUSTED_EXTRA = [
     "pandas DataFrame.from_records NaN coercion, Series division (x/0 = inf, 0/0 = NaN), fillna, boolean masks, "
     "label alignment of Series assignment, Series.median / np.nanmedian",
     "Model/Ranges.lean iterSlices = skgenome.intersect.iter_slices (tied by C07)",
+    "harness/dectrans.py: the reading of the if / elif / return structure of vcfio._extract_genotype, _get_alt_count, "
+    "_safesum (rules at the top of the file) and the vocabulary of harness/extractors/vcf_decisions.py (source text of each "
+    "condition / value -> atom name; the Lean definitions Src.hasAD, adIsTuple, adGiven, adHasSecond, severalAlleles, "
+    "onlyAlleleIsRef, depthFrom, altFrom say what each atom means on the model's data)",
+    "harness/extractors/vcf_consts.py: which argparse declarations belong to which command (parser variable with "
+    "set_defaults(func=_cmd_x) and its argument groups) and the reading of a command's load_het_snps call as positional "
+    "binding to the callee's parameter list",
 ]
 
 ERRS = ("IndexError", "KeyError", "AssertionError", "ValueError")
@@ -606,6 +618,44 @@ def gen_pipeline_cli(rng, nmax=40):
     return c
 
 
+CLI_COMMANDS = {
+    # command function -> (argument head; {seg} {vcf} {out} stand for file names), short flag of --min-variant-depth if any
+    "_cmd_segment": (["segment", "{seg}", "-v", "{vcf}"], None),
+    "_cmd_call": (["call", "{seg}", "-v", "{vcf}"], None),
+    "_cmd_scatter": (["scatter", "-v", "{vcf}"], None),
+    "_cmd_export_theta": (["export", "theta", "{seg}", "-v", "{vcf}", "-o", "{out}"], "-m"),
+    "_cmd_export_nbo": (["export", "nexus-ogt", "{seg}", "{vcf}"], "-m"),
+}
+
+
+def gen_cliopts(rng):
+    """the VCF options of one of the five commands that read a VCF, as an argument vector: ids given or not, the depth
+    option given (incl. its default value spelled out) or left out, -z left out / bare / with a number; short and long
+    spellings, option order shuffled.  What is observed is what `load_het_snps` receives."""
+    cmd = rng.choice(sorted(CLI_COMMANDS))
+    head, m_short = CLI_COMMANDS[cmd]
+    sid = rng.choice([None, None, "T", "TUMOR", "S0", "b"])
+    nid = rng.choice([None, None, None, "N", "NORMAL", "S1", "a"])
+    md = rng.choice([None, None, None, 0, 1, 10, 20, 30, 100])
+    zyg = rng.choice([None, None, None, "bare", "bare", 0.25, 0.3, 0.1, 0.4, 0.125, 0.5, 0.0])
+    long_ = lambda short, long: long if (short is None or rng.random() < 0.4) else short
+    groups = []
+    if sid is not None:
+        groups.append([long_("-i", "--sample-id"), sid])
+    if nid is not None:
+        groups.append([long_("-n", "--normal-id"), nid])
+    if md is not None:
+        groups.append([long_(m_short, "--min-variant-depth"), str(md)])
+    if zyg == "bare":
+        groups.append([long_("-z", "--zygosity-freq")])
+    elif zyg is not None:
+        groups.append([long_("-z", "--zygosity-freq"), repr(float(zyg))])
+    rng.shuffle(groups)
+    return {"op": "vcf_cliopts", "tag": "cliopts",
+            "in": {"cmd": cmd, "sid": sid, "nid": nid, "min_depth": md, "zyg": zyg,
+                   "argv": head + [a for g in groups for a in g]}}
+
+
 def gen_boost(rng):
     grid = [Fraction(k, 8) for k in range(0, 9)]
     n = rng.randint(1, 12)
@@ -723,6 +773,9 @@ def gen_cases(rng, tier):
     # command-line share: ~10 % of all cases, generated last so that the API case stream stays what it was
     for _ in range({"search": 210, "quick": 480}.get(tier, 3600)):
         cases.append(gen_pipeline_cli(rng, 500 if rng.random() < 0.01 else 40))
+    # the option glue of all five VCF-reading commands (cheap: the command stops where it calls load_het_snps)
+    for _ in range({"search": 150, "quick": 200}.get(tier, 1500)):
+        cases.append(gen_cliopts(rng))
     return cases
 
 
@@ -1001,10 +1054,68 @@ def _pipeline_cli(i):
         shutil.rmtree(d, ignore_errors=True)
 
 
+def _cli_options(i):
+    """run the argument vector the way cnvkit.py does, up to the command's call of load_het_snps: what that function
+    receives, bound to ITS parameter names (positional or keyword), defaults applied"""
+    import inspect
+    import logging
+    from cnvlib import commands, cmdutil
+    from cnvlib.cnary import CopyNumArray as CNA
+    d = tempfile.mkdtemp(dir="/var/tmp", prefix="c18opt")
+    try:
+        paths = {"seg": os.path.join(d, "s.cns"), "vcf": os.path.join(d, "s.vcf"), "out": os.path.join(d, "s.out")}
+        argv = [a.format(**paths) if a.startswith("{") else a for a in i["argv"]]
+        seg = CNA.from_rows([("chr1", 0, 1000, "-", 0.0, 10, 1.0), ("chr1", 1000, 2000, "-", 0.5, 10, 1.0)],
+                            columns=_SEG_COLS + ["weight"], meta_dict={"sample_id": "s"})
+        got = {}
+
+        class _Reached(Exception):
+            pass
+
+        def _fake(*a, **k):
+            got["bound"] = inspect.signature(cmdutil.load_het_snps).bind(*a, **k)
+            raise _Reached()
+        saved = commands.load_het_snps, commands.read_cna
+        quiet = logging.root.manager.disable
+        commands.load_het_snps, commands.read_cna = _fake, (lambda *a, **k: seg.copy())
+        logging.disable(logging.CRITICAL)
+        cwd = os.getcwd()
+        os.chdir(d)
+        try:
+            try:
+                args = commands.parse_args(argv)
+            except SystemExit as exc:
+                raise CliOutputError(f"the argument vector is not accepted: exit {exc.code}")
+            if args.func.__name__ != i["cmd"]:
+                raise CliOutputError(f"{argv[:2]} runs {args.func.__name__}, not {i['cmd']}")
+            try:
+                args.func(args)
+            except _Reached:
+                pass
+        finally:
+            os.chdir(cwd)
+            logging.disable(quiet)
+            commands.load_het_snps, commands.read_cna = saved
+        if "bound" not in got:
+            raise CliOutputError("the command did not call load_het_snps")
+        b = got["bound"]
+        b.apply_defaults()
+        a = b.arguments
+        if a["vcf_fname"] != paths["vcf"]:
+            raise CliOutputError("load_het_snps did not receive the VCF file name")
+        zf = a["zygosity_freq"]
+        return [a["sample_id"], a["normal_id"], a["min_variant_depth"], None if zf is None else frac(zf),
+                bool(a["tumor_boost"])]
+    finally:
+        shutil.rmtree(d, ignore_errors=True)
+
+
 def run_impl(case):
     from skgenome import tabio
     from cnvlib import cmdutil, call, vary
     op, i = case["op"], case["in"]
+    if op == "vcf_cliopts":
+        return _cli_options(i)
     if op == "vcf_read":
         fn = _write_vcf(i["vcf"])
         try:
@@ -1090,6 +1201,12 @@ def _sel_json(x):
 
 def to_line(case, impl):
     op, i = case["op"], dict(case["in"])
+    if op == "vcf_cliopts":
+        i.pop("argv", None)
+        if i["zyg"] is None:
+            i.pop("zyg")
+        elif i["zyg"] != "bare":
+            i["zyg"] = frac(float(i["zyg"]))
     if "vcf" in i:
         i.update(model_vcf(i.pop("vcf")))
     if op in ("vcf_hets", "vcf_pipeline"):
@@ -1149,10 +1266,26 @@ def _unwrap(impl):
     return impl["baf"] if isinstance(impl, dict) and "baf" in impl else impl
 
 
+def _judge_cliopts(case, impl, resp):
+    spec = list(resp.get("spec") or [])
+    out = resp["out"]
+    ierr = impl["__error__"] if isinstance(impl, dict) and "__error__" in impl else None
+    if ierr:
+        return (spec or ["cli_reads_the_vcf_options"]), [], None
+    if isinstance(out, dict):
+        return spec, ([] if spec else ["the command's load_het_snps call is outside the model: " + str(out)]), None
+    same = len(impl) == len(out) and all(
+        (a == b) if (k != 3 or a is None or b is None) else Fraction(a) == Fraction(b)
+        for k, (a, b) in enumerate(zip(impl, out)))
+    return spec, ([] if spec or same else [f"load_het_snps received {impl}, model {out}"]), None
+
+
 def judge(case, impl, resp):
     impl = _unwrap(impl)
     if "error" in resp and "out" not in resp:
         return [], ["model error: " + str(resp["error"])], None
+    if case["op"] == "vcf_cliopts":
+        return _judge_cliopts(case, impl, resp)
     spec = list(resp.get("spec") or [])
     out = resp["out"]
     disagree = []
@@ -1205,6 +1338,8 @@ def nontrivial(case, impl, resp):
     op, i = case["op"], case["in"]
     if isinstance(impl, dict) and "__error__" in impl:
         return False
+    if op == "vcf_cliopts":
+        return True
     if op in ("vcf_read", "vcf_hets"):
         return len(i["vcf"]["records"]) >= 1 and len(impl["rows"]) >= 1
     if op in ("vcf_baf", "vcf_pipeline"):
